@@ -132,6 +132,18 @@ impl<'a> QGen<'a> {
                 "not_has_substring", "regex", "not_regex",
             ]);
         }
+        // operators the frontend must REFUSE for this type (string operators on lists or on non-strings,
+        // ordering on booleans): a correct frontend rejects the query (counted as frontend-rejected); if it
+        // ever accepts one, executing it panics or disagrees with the specification
+        if self.rng.chance(self.p_known_defects, 100) {
+            if !(base_of(ty) == "String" && !is_list(ty)) {
+                ops.extend_from_slice(&["has_prefix", "has_substring", "not_has_suffix", "regex"]);
+                self.feat("ill-typed-operator-attempt");
+            }
+            if base_of(ty) == "Boolean" {
+                ops.extend_from_slice(&["<", ">="]);
+            }
+        }
         if is_count {
             ops = vec!["=", "!=", "<", "<=", ">", ">=", ">", ">=", "<=", "one_of", "not_one_of"];
         }
